@@ -38,6 +38,12 @@ func runBounded(b BoundedCfg) (map[string]interface{}, string) {
 	if err != nil {
 		out["error"] = err.Error()
 		out["output_tail"] = trunc(buf.String(), 2000)
+		if ee, isExit := err.(*exec.ExitError); isExit && ee.ExitCode() == 2 {
+			// the stand-in could not decide (build failure of the harness, time budget exceeded): a
+			// machinery problem, never a violation of the property
+			out["undecided"] = true
+			return out, ""
+		}
 		if rp, ok := last["replay"].(string); ok {
 			return out, rp
 		}
